@@ -32,7 +32,9 @@ class Atom(RefBase[T], Generic[T]):
 
     def _compare_and_set(self, old: T, new: T) -> bool:
         with self._lock:
-            if self._state != old:
+            # Compare by identity first: values such as NaN are not equal to
+            # themselves, and would otherwise never match the current state
+            if self._state is not old and self._state != old:
                 return False
             self._state = new
             return True
